@@ -9,6 +9,7 @@ CONSTANTS
     TickSteps = {1}
     NProofs = 1
     TsChoices = {0, 1, 3, 5, 6}
+    FarChoices = {"near", "fut10", "fut15", "futmax", "past10"}
     NonceIds = {1}
     ShareNonces = FALSE
     KidChoices = {"k1", "k2"}
